@@ -144,7 +144,7 @@ func main() {
 					}
 				case *ast.FuncDecl:
 					key := "func:" + recvOf(x, fset) + x.Name.Name
-					sig := norm(fset, x.Type)
+					sig := sigTypes(fset, x.Type) // parameter and result TYPES only: renaming a parameter is not a surface change
 					if x.Name.Name == "init" {
 						key = fmt.Sprintf("func:init@%s", n)
 					}
@@ -162,6 +162,31 @@ func main() {
 	}
 	b, _ := json.MarshalIndent(out, "", " ")
 	fmt.Println(string(b))
+}
+
+// sigTypes renders a function type by its parameter and result types, without names.
+func sigTypes(fset *token.FileSet, ft *ast.FuncType) string {
+	list := func(fl *ast.FieldList) string {
+		if fl == nil {
+			return ""
+		}
+		var parts []string
+		for _, f := range fl.List {
+			n := len(f.Names)
+			if n == 0 {
+				n = 1
+			}
+			for i := 0; i < n; i++ {
+				parts = append(parts, norm(fset, f.Type))
+			}
+		}
+		return strings.Join(parts, ",")
+	}
+	tp := ""
+	if ft.TypeParams != nil {
+		tp = "[" + list(ft.TypeParams) + "]"
+	}
+	return "func" + tp + "(" + list(ft.Params) + ")(" + list(ft.Results) + ")"
 }
 
 // stripComments prints a function without comments (go/printer only prints comments attached to the file).
